@@ -477,8 +477,10 @@ func genWiring(repo string) (string, error) {
 						for _, st2 := range loop.Body.List {
 							switch n := st2.(type) {
 							case *ast.AssignStmt:
-								if n.Tok == token.DEFINE && len(n.Lhs) >= 1 && exprString(n.Lhs[0]) == v {
-									local = true
+								if len(n.Lhs) >= 1 && exprString(n.Lhs[0]) == v {
+									if n.Tok == token.DEFINE {
+										local = true
+									}
 									ast.Inspect(n, func(y ast.Node) bool {
 										if e, ok := y.(*ast.IndexExpr); ok && exprString(e.X) == "inputChans" && exprString(e.Index) == idx {
 											ownQueue = true
